@@ -3,6 +3,7 @@ CONSTANTS Streams <- Medium
   ReadMax = 2048
   MaxReads = 3
   Fails <- NoFail
+  Swaps <- FewSwap
   Cuts <- NoCuts
   D = 0
 INIT Init
